@@ -29,6 +29,7 @@ def gen_consts(v):
         'PID_IPV4_DEFAULT_ROUTE PID_DNS_NAME_SERVER PID_DNS_HOSTNAME PID_DNS_DOMAIN_NAME NO_DEFAULT_ROUTE '
         'MIN_RDM_INTERFACE_INDEX MAX_RDM_INTERFACE_INDEX DNS_NAME_SERVER_MAX_INDEX MAX_RDM_HOSTNAME_LENGTH '
         'MAX_RDM_DOMAIN_NAME_LENGTH DHCP_STATUS_MAX PRODUCT_DETAIL_OTHER PRODUCT_CATEGORY_OTHER').split()]
+    ents += [('MAX_LOCK_PIN_V', R + 'MAX_LOCK_PIN'), ('MERGEMODE_DMX_ONLY_V', R + 'MERGEMODE_DMX_ONLY')]
     ents += [('ARP_ETHERNET_TYPE', 'ARPHRD_ETHER')]   # what Interface::ARP_ETHERNET_TYPE is defined as (Interface.cpp)
     ents += [(n + '_V', R + n) for n in ('LAMP_ON LAMP_STANDBY LAMP_ON_MODE_DMX LAMP_ON_MODE_ON_AFTER_CAL DISPLAY_INVERT_AUTO '
                                          'POWER_STATE_NORMAL RESET_WARM RESET_COLD DS_ASCII CC_GET').split()]
@@ -654,6 +655,60 @@ def gen_resp(rng, tier):
             f[7] = hx(avoid_known('dummy', 'own', int(f[4]), int(f[5]), int(f[6]), [int(f[7][j:j + 2], 16) for j in range(0, len(f[7]), 2)] if f[7] != '-' else []))
             seq[i] = ','.join(f)
         yield 'resp dummy %d %s %s %s' % (OWN, strs, init, fin(seq))
+    strs = _label_strings('OLA E1.37-1 Dimmer', 'Dummy Adv Dimmer')
+    for _ in range(120 if quick else 3000):
+        seq = walk('advdimmer', [0, 0, 0, 0, 0, 0, 1, 0xffff], rng.choice([12, 24, 48]))
+        pin = 0
+        for i in range(len(seq)):
+            k = rng.random()
+            f = seq[i].split(',')
+            def S(pid, data, cc=SET):
+                f[4], f[5], f[6], f[7] = '0', str(cc), str(pid), hx(data)
+            if k < 0.12:     # lock state with the right / a wrong PIN, every state and one beyond
+                p_ = rng.choice([pin, pin, pin, pin ^ 1])
+                S(0x641, [p_ >> 8, p_ & 255, rng.choice([0, 1, 2, 2, 3])])
+            elif k < 0.18:   # change the PIN (right / wrong current PIN, new PIN around 9999)
+                new = rng.choice([0, 1, 1234, 9999, 10000])
+                cur = rng.choice([pin, pin, pin ^ 1])
+                S(0x640, [new >> 8, new & 255, cur >> 8, cur & 255])
+                if cur == pin and new <= 9999 and f[1] == str(OWN):
+                    pin = new
+            elif k < 0.24:   # locked / unlocked start address and personality
+                if rng.random() < 0.5:
+                    S(0xf0, [rng.choice([0, 1, 1, 2]), rng.randrange(256)])
+                else:
+                    S(0xe0, [rng.choice([0, 1, 1, 2])])
+            elif k < 0.32:   # fail / start-up mode: scene valid or not, times inside / outside their windows
+                sc = rng.choice([0, 1, 5, 6, 7, 65535])
+                dl = rng.choice([0, 9, 10, 255, 256, 1200, 1201, 65534, 65535])
+                hd = rng.choice([0, 1, 36000, 36001, 65280, 65281, 65535])
+                S(rng.choice([0x141, 0x142]), [sc >> 8, sc & 255, dl >> 8, dl & 255, hd >> 8, hd & 255, rng.randrange(256)])
+            elif k < 0.4:    # presets: capture / status / playback around the preset count and the read-only preset
+                sc = rng.choice([0, 1, 2, 5, 6, 7, 65535])
+                which = rng.random()
+                if which < 0.35:
+                    S(0x1030, [sc >> 8, sc & 255] + rdata(rng, 6, False))
+                elif which < 0.7:
+                    S(0x1042, [sc >> 8, sc & 255] + rdata(rng, 6, False) + [rng.choice([0, 0, 1, 2])])
+                elif which < 0.85:
+                    S(0x1042, [sc >> 8, sc & 255], GET)
+                else:
+                    S(0x1031, [sc >> 8, sc & 255, rng.randrange(256)])
+            elif k < 0.46:   # setting managers and their descriptions
+                pid = rng.choice([0x343, 0x345, 0x347])
+                if rng.random() < 0.5:
+                    S(pid, [rng.choice([0, 1, 2, 3, 4, 5, 6])])
+                else:
+                    S(pid + 1, [rng.choice([0, 1, 2, 3, 4, 5, 6])], GET)
+            elif k < 0.5:
+                v = rng.choice([0, 0x7ffe, 0x7fff, 0x8000, 0xffff])
+                if rng.random() < 0.5:
+                    S(0x342, [v >> 8, v & 255])
+                else:
+                    w = rng.choice([0, 0x7fff, 0x8000])
+                    S(0x341, [v >> 8, v & 255, w >> 8, w & 255, rng.choice([0, 1, 2])])
+            seq[i] = ','.join(f)
+        yield 'resp advdimmer %d %s - %s' % (OWN, strs, fin(seq))
     strs = _label_strings('OLA Network Device', 'Network Device')
     for _ in range(60 if quick else 2000):
         net, idxs = rand_net(rng)
@@ -676,6 +731,46 @@ def gen_resp(rng, tier):
         for _ in range(30 if quick else 600):
             seq = walk(kind, [0, 0, 1, 1, 2, n, n + 1, 0xffff, 0xffff], rng.choice([8, 24, 48]))
             yield 'resp dimmer%d %d %s - %s' % (n, OWN, strs, fin(seq))
+
+def gen_state_bcast(rng, tier):
+    """reach a non-initial state with valid unicast SETs (for the advanced dimmer: every LOCK_STATE, with the PIN
+    unchanged or changed first), then send a valid-looking SET/GET of EVERY supported PID to every non-unicast
+    destination (and to the own UID): nothing that happens before ResponderOps' addressing logic may answer"""
+    quick = tier == 'quick'
+    sup = supported_pids()
+    for kind in sorted(KINDS):
+        if kind in ('dimmer0', 'dimmer1', 'dimmer8'):
+            continue
+        variants = [None]
+        if kind == 'advdimmer':
+            variants = [(st, newpin) for st in (0, 1, 2) for newpin in (None, 0x1234)]
+        for var in variants:
+            for rep in range(1 if quick else 6):
+                seq = []
+                if var is not None:
+                    st, newpin = var
+                    pin = 0
+                    if newpin is not None:
+                        seq.append(req(OWN, 0, SET, 0x640, [newpin >> 8, newpin & 255, 0, 0]))
+                        pin = newpin
+                    seq.append(req(OWN, 0, SET, 0x641, [pin >> 8, pin & 255, st]))
+                    seq.append(req(OWN, 0, GET, 0x641, []))
+                else:
+                    for _ in range(6):
+                        pid = rng.choice(sup[kind])
+                        seq += _field_reqs(rng, pid, SET, rng.choice([0, 0, 1] if kind.startswith('dimmer') else [0]))
+                body = []
+                for pid in sup[kind]:
+                    for dn in ('bcast', 'vcast', 'vcasto', 'other', 'otherm', 'own'):
+                        for cc in ((SET,) if quick and dn != 'own' else (SET, GET)):
+                            r = _field_reqs(rng, pid, cc, 0)[0].split(',')
+                            r[1] = str(DESTS[dn])
+                            r[7] = hx(avoid_known(kind, dn, 0, cc, pid, [int(r[7][j:j + 2], 16) for j in range(0, len(r[7]), 2)] if r[7] != '-' else []))
+                            body.append(','.join(r))
+                rng.shuffle(body)
+                # keep the state-reaching prefix in front of every chunk (a fresh responder per case)
+                for ch in chunks(body, 60):
+                    yield seq_case(rng, kind, seq + ch)
 
 def chunks(l, n):
     for i in range(0, len(l), n):
@@ -846,7 +941,7 @@ def gen_help(rng, tier):
             yield 'help 23 %s %d -' % (R(rdata(rng, n, False)), rng.choice(mcs))
 
 def gen_cases(rng, tier):
-    for g in (gen_disp, gen_fan, gen_help, gen_ackt, gen_acktimer, gen_block, gen_nested, gen_fields, gen_resp, gen_sweeps):
+    for g in (gen_disp, gen_fan, gen_help, gen_ackt, gen_acktimer, gen_block, gen_nested, gen_state_bcast, gen_fields, gen_resp, gen_sweeps):
         for c in g(rng, tier):
             yield c
 
@@ -875,8 +970,8 @@ RULE = ('disp: scripted handler table on the real ResponderOps x PID {placeholde
         'and the value boundaries of each comparison; sweep: every built-in responder, all supported PIDs + neighbours/boundary '
         'PIDs (thorough: all 65536) x class x sub-device x destination x parameter lengths, in sequences of 40-512 requests with a '
         'snapshot of all GET-able parameters around every SET, every reply judged by the extracted chk_sweep, transaction number '
-        'and controller UID different on neighbouring requests; fields: for every GET/SET described in the PID store (/repo/data/rdm) each field in turn at its descriptor range/label values +-1 and the generic width boundaries with the other fields valid; block: DMX_BLOCK_ADDRESS after per-sub-device changes on dimmers with 0/1/2/4/8 sub-devices; nesting: in ~40% of all sweep/ackt/resp sequences (and in a fan-out aimed class) requests are sent from INSIDE the completion callback of an earlier request, up to 4 levels deep, on the same long-lived responder (re-entrancy); the after-snapshot of a SET is then taken at the moment its callback runs; ackt: ack-timer histories with explicit clock steps around 400 ms '
-        '(SET->ACK_TIMER, queued-message delivery, STATUS_GET_LAST_MESSAGE, >255 queued), full replies compared with AckTimer.v; resp: random/field-wise histories on the sensor responder, dimmers with 0/1/2/4/8 sub-devices, the moving light, the network responder and the dummy responder (scripted network manager around its limits), full replies and final state compared with Responders.v / MovingLight.v. '
+        'and controller UID different on neighbouring requests; fields: for every GET/SET described in the PID store (/repo/data/rdm) each field in turn at its descriptor range/label values +-1 and the generic width boundaries with the other fields valid; state-bcast: after valid unicast SETs (advanced dimmer: every LOCK_STATE, PIN changed or not) a valid-looking SET/GET of every supported PID to every non-unicast destination; block: DMX_BLOCK_ADDRESS after per-sub-device changes on dimmers with 0/1/2/4/8 sub-devices; nesting: in ~40% of all sweep/ackt/resp sequences (and in a fan-out aimed class) requests are sent from INSIDE the completion callback of an earlier request, up to 4 levels deep, on the same long-lived responder (re-entrancy); the after-snapshot of a SET is then taken at the moment its callback runs; ackt: ack-timer histories with explicit clock steps around 400 ms '
+        '(SET->ACK_TIMER, queued-message delivery, STATUS_GET_LAST_MESSAGE, >255 queued), full replies compared with AckTimer.v; resp: random/field-wise histories on the sensor responder, dimmers with 0/1/2/4/8 sub-devices, the moving light, the network responder, the dummy responder (scripted network manager around its limits) and the advanced dimmer (lock state / PIN changes with right and wrong PINs, presets around the count and the read-only preset, fail/start-up times around their windows), full replies and final state compared with Responders.v / MovingLight.v. '
         'non-trivial = helper ACK / one completion carrying a response / a fully conformant sequence containing GETs and SETs; '
         'distinct = distinct model output line')
 ASSUMPTIONS = ['the models are sequential: a request issued from inside a completion callback is modelled as the next request (the callback is the last action of every responder entry point); the harness checks that equivalence on the real code by sending nested requests',
@@ -904,7 +999,8 @@ TRUSTED = ['modelled rather than verified: ResponderOps<T>::HandleRDMRequest/Han
            'configuration; the harness installs a FakeNetworkManager built from the same configuration, also in the DummyResponder), '
            'std::sort of the interfaces is modelled as an insertion sort (distinct indices in the generated configurations), theorems '
            'assume at most 38 interfaces and URL strings of at most 231 bytes',
-           'FrequencyModulationSetting descriptions are not modelled (swept only); slot-table theorems assume '
+           'AdvDimmer.v: setting / frequency descriptions, lock states, preset count and the level / time windows are typed from '
+           'AdvancedDimmerResponder.cpp (private constants defined in the .cpp) and pinned by the resp advdimmer correspondence; slot-table theorems assume '
            'the table fits one response (<=46 slots for SLOT_INFO, <=77 for DEFAULT_SLOT_VALUE) and that the active personality exists']
 LEVEL_TEXT = ('PARTIAL by design. Coq theorems, for all requests and EVERY handler behaviour, about an executable model of '
               'ResponderOps dispatch (completion exactly once; broadcast/vendorcast: status only, no response; foreign UID: '
@@ -913,17 +1009,18 @@ LEVEL_TEXT = ('PARTIAL by design. Coq theorems, for all requests and EVERY handl
               'of the SubDeviceDispatcher fan-out (exactly one completion, tracker never used after deletion, first sub-device\'s '
               'reply, resulting state) and of the generic ResponderHelper parsers (never read outside the parameter data, ACK or NACK '
               'with a legal reason for every length, state unchanged on NACK), all tied to the C++ by differential correspondence. '
-              'For SEVEN of the eight responder classes the handler hypothesis is discharged, each handler modelled as the '
-              'ResponderHelper call it is: AckTimerResponder (c13_acktimer), SensorResponder (c13_sensor), DimmerSubDevice and '
-              'DimmerRootDevice (c13_dimmer_sub, c13_dimmer_root; the composite DimmerResponder: c13_dimmer_once + c13_fanout*), '
-              'MovingLightResponder (c13_moving_light), NetworkResponder (c13_network, incl. the eight E1.37-2 network helpers over an '
-              'abstract NetworkManagerInterface) and DummyResponder (c13_dummy; excludes exactly the known finding GET TEST_DATA '
-              '232..4096). Handler tables are checked against tables regenerated from the PARAM_HANDLERS arrays (c13_tables), '
-              'personalities/slots of the moving light and the dummy are regenerated from their sources, and full replies + final state '
-              'are compared with the real responders (resp/ackt classes; scripted sensors, network manager and clock). '
-              'AdvancedDimmerResponder\'s handler bodies (33) are NOT modelled: for it the evidence is a sweep in which every real reply '
-              '(with before/after snapshots of all GET-able parameters, field-wise boundary payloads) is judged by the extracted instance '
-              'checker chk_13, proved to imply the property text (c13_chk_sound) -- testing judged by a proved checker, not a theorem. '
+              'For ALL eight responder classes the handler hypothesis is discharged, each handler modelled as the '
+              'ResponderHelper call (or the few lines) it is: AckTimerResponder (c13_acktimer), SensorResponder (c13_sensor), '
+              'DimmerSubDevice and DimmerRootDevice (c13_dimmer_sub, c13_dimmer_root; the composite DimmerResponder: '
+              'c13_dimmer_once + c13_fanout*), MovingLightResponder (c13_moving_light), NetworkResponder (c13_network, incl. the eight '
+              'E1.37-2 network helpers over an abstract NetworkManagerInterface), DummyResponder (c13_dummy; excludes exactly the '
+              'known finding GET TEST_DATA 232..4096) and AdvancedDimmerResponder (c13_advanced_dimmer, plus lock-state theorems '
+              'c13_advanced_dimmer_locked_silent / _write_protect). Handler tables are checked against tables regenerated from the '
+              'PARAM_HANDLERS arrays (c13_tables), personalities/slots of the moving light and the dummy are regenerated from their '
+              'sources, and full replies + final internal state are compared with the real responders (resp/ackt classes; scripted '
+              'sensors, network manager and clock; histories reach every lock state). Model = code remains differential testing; '
+              'independently every real reply of the sweeps (with before/after snapshots of all GET-able parameters) is judged by the '
+              'extracted instance checker chk_13, proved to imply the property text (c13_chk_sound). '
               'Two known findings are excluded narrowly (GET TEST_DATA > 231 bytes, refuted/partial theorems; mixed ACK/NACK of a SET '
               'fanned out to all sub-devices, c13_fanout_mixed_refuted / c13_fanout_partial).')
 LEVEL_NOTE = ('Trusted: Coq kernel, extraction (ExtrOcamlBasic), OCaml/C++ glue incl. the pipe to the checker service, generator '
